@@ -550,6 +550,95 @@ pub fn c07(tier: &str) -> i32 {
     } else {
         rep.machinery.push(format!("CLI binary {cli} not built (bin/check builds it; repo {})", repo_dir()));
     }
+    // ---- configuration paths: one configuration reached through different public routes (builder order, the single-knob
+    //      builders, with_mutator one at a time, plain field assignment, builders overwritten on the way) is one configuration
+    {
+        use pickle_fuzzer::{Generator, Version};
+        let mut n_paths = 0u64;
+        let inputs: Vec<Option<Vec<u8>>> = vec![None, Some(vec![]), Some((1..=120u8).collect()), Some(vec![0x01, 0xff, 0x03, 0x81, 0x22, 0x07, 0x09, 0x40, 0x11])];
+        for p in 0..=5u8 {
+            let cfgs = [
+                Cfg::new(p),
+                Cfg::new(p).range(5, 40).flags(true, false),
+                Cfg::new(p).range(40, 5).flags(false, true),
+                Cfg::new(p).flags(true, true).muts(&FULL, 0.5, false),
+                Cfg::new(p).flags(true, true).muts(&FULL, 0.5, true),
+                Cfg::new(p).range(10, 30).muts(&[Mk::Offbyone, Mk::Typeconfusion, Mk::Memoindex], 1.0, true),
+                Cfg::new(p).range(10, 30).muts(&[Mk::Typeconfusion, Mk::Character], 0.0, false),
+            ];
+            for cfg in cfgs {
+                let v = Version::try_from(cfg.proto as usize).unwrap();
+                let muts = |c: &Cfg| -> Vec<Box<dyn pickle_fuzzer::Mutator>> { c.mutators.iter().map(|m| m.kind().create(c.unsafe_mut)).collect() };
+                let paths: Vec<(&str, Box<dyn Fn() -> Generator>)> = vec![
+                    ("builders, mutators first", Box::new(|| {
+                        let mut g = Generator::new(v);
+                        if !cfg.mutators.is_empty() {
+                            g = g.with_mutators(muts(&cfg));
+                        }
+                        g.with_mutation_rate(cfg.rate).with_buffer_opcodes(cfg.buffer).with_ext_opcodes(cfg.ext).with_unsafe_mutations(cfg.unsafe_mut).with_max_opcodes(cfg.max).with_min_opcodes(cfg.min)
+                    })),
+                    ("builders, mutators last one at a time", Box::new(|| {
+                        let mut g = Generator::new(v).with_min_opcodes(cfg.min).with_max_opcodes(cfg.max).with_unsafe_mutations(cfg.unsafe_mut).with_ext_opcodes(cfg.ext).with_buffer_opcodes(cfg.buffer).with_mutation_rate(cfg.rate);
+                        for m in muts(&cfg) {
+                            g = g.with_mutator(m);
+                        }
+                        g
+                    })),
+                    ("every knob set to something else first, then overwritten", Box::new(|| {
+                        let mut g = Generator::new(v)
+                            .with_opcode_range(7, 7)
+                            .with_unsafe_mutations(!cfg.unsafe_mut)
+                            .with_ext_opcodes(!cfg.ext)
+                            .with_buffer_opcodes(!cfg.buffer)
+                            .with_mutation_rate(1.0 - cfg.rate)
+                            .with_mutators(vec![pickle_fuzzer::MutatorKind::Bitflip.create(!cfg.unsafe_mut)])
+                            .with_buffer_size(17)
+                            .with_seed(999);
+                        g = g.with_opcode_range(cfg.min, cfg.max).with_unsafe_mutations(cfg.unsafe_mut).with_ext_opcodes(cfg.ext).with_buffer_opcodes(cfg.buffer).with_mutation_rate(cfg.rate).with_mutators(muts(&cfg));
+                        g.seed = None;
+                        g
+                    })),
+                    ("default generator, public fields assigned", Box::new(|| {
+                        let mut g = Generator::new(v);
+                        g.min_opcodes = cfg.min;
+                        g.max_opcodes = cfg.max;
+                        g.mutation_rate = cfg.rate;
+                        g.unsafe_mutations = cfg.unsafe_mut;
+                        g.allow_ext_opcodes = cfg.ext;
+                        g.allow_buffer_opcodes = cfg.buffer;
+                        g.mutators = muts(&cfg);
+                        g
+                    })),
+                ];
+                for inp in &inputs {
+                    let want = match inp {
+                        None => run_seed(&cfg, 77, false).out,
+                        Some(b) => run_bytes(&cfg, b, false, false).out,
+                    };
+                    for (name, mk) in &paths {
+                        n_paths += 1;
+                        let mut g = mk();
+                        let got = match inp {
+                            None => {
+                                g = g.with_seed(77);
+                                crate::run::run_on(&mut g, crate::run::Entropy::Seeded, false, false).out
+                            }
+                            Some(b) => crate::run::run_on(&mut g, crate::run::Entropy::Bytes(b), false, false).out,
+                        };
+                        if got != want {
+                            rep.finding_raw(
+                                &format!("configuration-path-differs:{}", name.split(',').next().unwrap_or("?").replace(' ', "-")),
+                                &format!("{}: configured through [{name}] the generator returns {} bytes, through with_opcode_range/with_mutators {} bytes, for {}", cfg.describe(), got.as_ref().map(|b| b.len()).unwrap_or(0), want.as_ref().map(|b| b.len()).unwrap_or(0), match inp { None => "generate() with seed 77".to_string(), Some(b) => format!("generate_from_arbitrary({})", lexer::hex(b)) }),
+                                json!({"kind":"digest","what":"configuration path","config":cfg.to_json(),"path":name}),
+                            );
+                        }
+                    }
+                }
+            }
+        }
+        rep.transitions += n_paths;
+        rep.set("configuration_paths", json!({"generations": n_paths, "paths": ["builders, mutators first", "builders, mutators last one at a time", "every knob set to something else first, then overwritten", "default generator, public fields assigned"]}));
+    }
     rep.sample(json!({"schedule_harness": works_sets.first().map(|w| w.1.iter().map(|x| x.describe()).collect::<Vec<_>>()), "oracle": "each thread's bytes equal the bytes of the same call run alone"}));
     rep.sample(json!({"hash_order": "NONE PUT NONE PUT NONE PUT GET(index i) under memo hash seeds 0..N", "oracle": "identical bytes under every iteration order of memo.keys()"}));
     rep.assumptions = vec![
